@@ -189,6 +189,9 @@ def run(ctx):
             ok = isinstance(par, ast.Call) and a.p.resolve_expr(entry.mod, par.func) == ("class", dec)
             ctx.check("C01.R5", "schemaless_reader wraps fo in BinaryDecoder only", ok, entry.where(n), f"schemaless_reader: {norm(par)}", "the input stream is used directly by schemaless_reader")
 
+    # ---- shared: what is encoded is the datum's own value under the branch / length / index the reader decodes ----
+    ctx.borrow("C02", {"C02.R2": "C01.R6", "C02.R3": "C01.R7", "C02.R4": "C01.R8", "C02.R5": "C01.R9"}, "a round trip returns the datum only if the writer encodes the datum's own value: the length prefix of the very bytes written, the index of the very symbol / validated branch, the default only for an absent key")
+
 
 def _exclusive(term, t, d):
     """tokens t and d lie in different branches of one `if`"""
